@@ -444,6 +444,8 @@ def vm_crosscheck(ctx, sd, R):
 
 def run(ctx):
     corpus(ctx)
+    import c04_struct
+    c04_struct.run_structured(ctx, stride=1 if ctx.thorough else 3)
     correspondence(ctx, 6000 if ctx.thorough else 700)
     if ctx.thorough:
         fuzz(ctx, 60000, True)
